@@ -1,9 +1,11 @@
 (* C01 — Decay tables read from a .dec file are exactly what the file states.
-   PARTIAL: these theorems are about what parse() does with the parsed statement list (model
-   Dec/Post.v); the step from text to statement list (Lark lexer/parser) is covered by the lexer-level
-   theorems of C02/C06 and by the correspondence, not by a full parsing theorem. *)
+   The theorems below are first stated about what parse() does with the parsed statement list (model Dec/Post.v), then
+   lifted to TEXTS (C01_text_level, over Dec/Whole.v = front-end model of C02 followed by Dec/Post.v): every spelling of every
+   layout of a statement list gives exactly the tables the list states.  PARTIAL: the front-end model is tied to Lark by the
+   correspondence of C02 (and the cross-check of this property's harness), not by a theorem about Lark. *)
 From Coq Require Import String List Bool ZArith QArith.
-From DL Require Import Lib.Val Lib.PyDict Decay.ChainDict Dec.Num Dec.Tables Dec.Syntax Dec.Post Dec.PostProofs.
+From DL Require Import Lib.Val Lib.PyDict Decay.ChainDict Dec.Num Dec.Tables Dec.Syntax Dec.Post Dec.PostProofs
+  Dec.Layout Dec.ItemParser Dec.FrontEnd Dec.LayoutProofs Dec.ItemParserProofs Dec.FrontEndProofs Dec.Whole Gen.GenLayout.
 Import ListNotations.
 Close Scope Q_scope.
 Open Scope string_scope.
@@ -55,3 +57,42 @@ Example C01_example :
   = vtables [("A", [{| l_bf := 1#2; l_fs := ["x~"; "K+"]; l_photos := true; l_model := "PHSP"; l_params := None |}]); ("B", [])].
 Proof. vm_compute. reflexivity. Qed.
 Print Assumptions C01_numeric_parameter.
+
+(* the same about texts: s is any spelling (white space, comments, LF / CR LF) of any layout (blank lines, wrapped parameter
+   lists, repeated semicolons, final End) of the statement list f.  Then parsing s succeeds with exactly the tables the
+   blocks of f state (first block per mother, lines in order, fields as C01_line_fields). *)
+Theorem C01_text_level : forall ccdb sc f its s T,
+  file_items (lc_kind gen_cfg) (lc_alts gen_cfg) f its -> spell (lc_label gen_cfg) (lc_ws gen_cfg) its s ->
+  copies_of f = [] -> parse_post ccdb sc false f = inl T ->
+  parse_dec_text ccdb sc false s = Some (inl T) /\
+  Forall2 (fun blk t => fst t = fst blk /\
+                        Forall2 (fun d l => resolve_line (model_aliases_of f) (defs_of f) d = inl l) (snd blk) (snd t))
+          (dedupe [] (raw_decays f)) T.
+Proof.
+  intros ccdb sc f its s T F Sp Hc H. split.
+  - rewrite (parse_dec_text_layout ccdb sc false f its s F Sp), H. reflexivity.
+  - exact (tables_are_the_blocks ccdb sc f T Hc H).
+Qed.
+Print Assumptions C01_text_level.
+
+(* and through the file-based constructor (several files, BOM, CR LF, End lines) *)
+Theorem C01_files_level : forall ccdb sc fs f its T, Forall file_ok fs ->
+  file_items (lc_kind gen_cfg) (lc_alts gen_cfg) f its -> spell (lc_label gen_cfg) (lc_ws gen_cfg) its (cat (map kept_text fs)) ->
+  parse_post ccdb sc false f = inl T ->
+  parse_dec_files ccdb sc false (map file_bytes fs) = Some (inl T).
+Proof.
+  intros ccdb sc fs f its T Hok F Sp H. rewrite (parse_dec_files_layout ccdb sc false fs f its Hok F Sp), H. reflexivity.
+Qed.
+Print Assumptions C01_files_level.
+
+(* non-vacuity at text level: an actual text, comments and CR LF included, read to its tables inside the model *)
+Example C01_text_example :
+  option_map vpost (parse_dec_text (fun n => n) (fun _ => None) true
+    ("# a comment" ++ String LF "" ++ "Decay A  # first block" ++ String CR (String LF "")
+     ++ "  0.5   x~  K+   PHOTOS PHSP ;" ++ String LF "" ++ "0.25 K+ VSS 1.5" ++ String LF "" ++ "  foo;;" ++ String LF ""
+     ++ "Enddecay" ++ String LF "" ++ "Decay B" ++ String LF "" ++ "Enddecay" ++ String LF ""
+     ++ "Decay A" ++ String LF "" ++ "Enddecay" ++ String LF "" ++ "End" ++ String LF ""))
+  = Some (vtables [("A", [{| l_bf := 1#2; l_fs := ["x~"; "K+"]; l_photos := true; l_model := "PHSP"; l_params := None |};
+                          {| l_bf := 1#4; l_fs := ["K+"]; l_photos := false; l_model := "VSS"; l_params := Some [PNum (3#2); PWord "foo"] |}]);
+                   ("B", [])]).
+Proof. vm_compute. reflexivity. Qed.
